@@ -39,7 +39,7 @@ def ops_fn(S):
 
 
 def run(ctx):
-    ctx.level = "other"
+    ctx.level = "proof"
     ctx.extra["explanation"] = ("partial Lean proof (node-level theorems + kernel-checked side conditions, counted under obligations) "
                                 "+ model-vs-implementation correspondence + direct oracle on the real converter; see level_note")
     ctx.rule = ("metamodel-valid values of every root type (387 structures, 22 aliases, 164 message classes): minimal, maximal, "
